@@ -82,6 +82,9 @@ func TestVerifHybridSlow(t *testing.T) {
 		for k := 0; k < int(size)+6 && key < 0; k++ {
 			val++
 			s.Set(k, 1000+k, 1, 0)
+			if c%2 == 1 {
+				s.Set(k, 1000+k, 1, 0) // overwritten once already: the entry carries its "dirty" mark
+			}
 			s.Wait()
 			select {
 			case key = <-sec.entered:
